@@ -397,6 +397,27 @@ pub fn gen_history14(rng: &mut Rng, unsound: bool) -> (Vec<Sx>, Vec<Sx>, String)
         let hl = push_add(leaf, &mut terms, &mut ops);
         if rng.chance(1, 2) { ops.push(lst(vec![sym("union"), num(ht), num(hl)])); } else { ops.push(lst(vec![sym("union"), num(hl), num(ht)])); }
     }
+    // a class whose datum improves TWICE within one rebuild: x = h(u(u(a)), a) hears of a's improvement directly and, later, through
+    // u(u(a)); its parents w = u(x), u(w) must follow both times
+    if rng.chance(1, 3) {
+        let pool: Vec<u64> = vec![1, 2];
+        let dd = rng.range(1, 2); let a = crate::eg::gen_term(rng, dd, &pool);
+        let un = |t: Sx| rt(6, vec![null_app()], vec![t]);
+        let hh = |x: Sx, y: Sx| rt(7, vec![null_app(), null_app()], vec![x, y]);
+        let mut chain = a.clone(); for _ in 0..rng.range(1, 3) { chain = un(chain); }
+        let x = if rng.chance(1, 2) { hh(chain.clone(), a.clone()) } else { hh(a.clone(), chain.clone()) };
+        let w2 = un(un(x.clone()));
+        let leaf = rt(*rng.pick(&[3u64, 4]), vec![], vec![]);
+        let mut nadd = ops.iter().filter(|o| o.head() == "add").count() as u64;
+        let mut push_add = |t: Sx, terms: &mut Vec<Sx>, ops: &mut Vec<Sx>| -> u64 {
+            let k = match terms.iter().position(|y| *y == t) { Some(k) => k, None => { terms.push(t); terms.len() - 1 } };
+            ops.push(lst(vec![sym("add"), num(k as u64)])); nadd += 1; nadd - 1
+        };
+        push_add(w2, &mut terms, &mut ops);
+        let ha = push_add(a, &mut terms, &mut ops);
+        let hl = push_add(leaf, &mut terms, &mut ops);
+        if rng.chance(1, 2) { ops.push(lst(vec![sym("union"), num(ha), num(hl)])); } else { ops.push(lst(vec![sym("union"), num(hl), num(ha)])); }
+    }
     (terms, ops, motif)
 }
 
